@@ -19,7 +19,7 @@ func init() {
 			"(skip blanks from 0, take non-blanks, skip blanks), whose stay-conditions are evaluated on all 256 byte values and must agree with the blank set {space, tab} of the statement; the token is s[i1:i2], the remainder s[i3:] " +
 			"(or a TrimLeft with exactly the blank set as cutset). R4: every token becomes a name (append in every iteration of a loop that runs until the remainder is empty); a bare domain yields one name with the unspecified IPv4 address, on the true edge of the " +
 			"domain-name test. R5: HostRule.Match is true exactly when some name equals the query. R6: NewRule tries cosmetic, then hosts, then network syntax, and the cosmetic detector ignores a marker preceded by a blank. " +
-			"R7: the DNS engine re-validates host-table hits and splits by address family (shared with C02). R10: in the address form the line is rejected iff netip.ParseAddr fails on the first token, and the stored address is the parsed one (not a transformed copy). R6 also: only the first occurrence of a marker character can start a cosmetic marker. R2/R3 accept the tokenizer as three counted scans or as strings.TrimLeft / strings.IndexAny / strings.TrimLeft with the three constant sets equal to {space, tab}. R6: the comment exemption of the marker search covers both blank characters of a hosts file, the space and the tab.",
+			"R7: the DNS engine re-validates host-table hits and splits by address family (shared with C02). R10: in the address form the line is rejected iff netip.ParseAddr fails on the first token, and the stored address is the parsed one (not a transformed copy). R6 also: only the first occurrence of a marker character can start a cosmetic marker. R2/R3 accept the tokenizer as three counted scans or as strings.TrimLeft / strings.IndexAny / strings.TrimLeft with the three constant sets equal to {space, tab}. R6: the comment exemption of the marker search covers both blank characters of a hosts file, the space and the tab. R6 also: an accepted marker has no '#' in front of it (the marker character is '#' itself at its first occurrence, or the finder tests that the part of the line before the marker holds none), so a '$$' or '$@$' inside the comment of a hosts line is not taken for an HTML-filtering marker.",
 		Trusted: []string{"netip.ParseAddr and filterutil.IsDomainName decide what an address / a domain name is (value-level, not judged)"},
 	})
 }
